@@ -134,12 +134,16 @@ func TestHeapDiscipline(t *testing.T) {
 		} else {
 			prog, feats = gen.Generate(t, cfg)
 		}
+		if rapid.IntRange(0, 3).Draw(t, "main-in-function") > 0 { // holders as locals of a function instead of globals
+			gen.WrapMain(prog)
+			feats["main-in-function"]++
+		}
 		out := ref.Run(prog)
 		if out.Budget || out.Unspecified != "" || out.Laufzeitfehler {
 			vf.Count("discard:not-normally-terminating-or-unspecified")
 			t.Skip("discard")
 		}
-		src := (&gen.Printer{}).Program(prog)
+		src := (&gen.Printer{ParenPrint: rapid.IntRange(0, 7).Draw(t, "paren-print") > 0}).Program(prog)
 		c := Case{Source: src}
 		if vf.Thorough() {
 			c.Levels = []int{0, 1, 2}
